@@ -213,18 +213,6 @@ def main():
                 for ch in engine.chunks(frontier, 4):
                     shards.append((sid, flags, path, NN, ch, dl))
         engine.phase(ck, 'E1 N=%d (every viable prefix = a cut, every dead token = a corruption)' % N, shard_e1, shards, schemas=len(USE))
-    # reduced alphabet, deeper: repeated titles (instances replaced in place), re-opened sections, calls - with a search path set
-    for N in ([8, 10] if quick else [10, 12]):
-        shards = []
-        for sid in ['P1', 'F07', 'F08', 'F10', 'F16', 'F18', 'F13', 'F17']:
-            sch = FAM[sid]
-            alpha = reduced_alphabet(sch)
-            inner, frontier = trace.viable_prefixes(sch, 0, alpha, 3)
-            cwb = 1000 if N <= 8 else 0
-            shards.append((sid, CM, True, 100 + cwb, inner, dl))
-            for ch in engine.chunks(frontier, 2):
-                shards.append((sid, CM, True, 100 + N + cwb, ch, dl))
-        engine.phase(ck, 'E1 reduced alphabet N=%d, search path and annotations on' % N, shard_e1, shards, schemas=8)
     sch = FAM['I1']
     alpha = [w for w in S.alphabet_for(sch) if w not in ('include', '(', ')')]
     for N in ([3, 4] if quick else [4, 5]):
@@ -244,6 +232,18 @@ def main():
                                    ('setmulti', b'p', [b'a']), ('setcomment', b'mt', b'c'), ('setcomment', b'pl', b'c')]
     apibfs.run_bfs(ck, A2, CM, [b'', b'mt a { x = 3 } mt b { } m { } pl = {q}'], ops, 2 if quick else 3, hygiene=True,
                    setup_lines=['cb_quiet 1', 'addpath A ' + enc(b'/verif/build'), 'addpath A ' + enc(b'/nonexistent')], label='api+hygiene')
+    # reduced alphabet, deeper: repeated titles (instances replaced in place), re-opened sections, calls - with a search path set
+    for N in ([8, 10] if quick else [10, 12]):
+        shards = []
+        for sid in ['P1', 'F07', 'F08', 'F10', 'F16', 'F18', 'F13', 'F17']:
+            sch = FAM[sid]
+            alpha = reduced_alphabet(sch)
+            inner, frontier = trace.viable_prefixes(sch, 0, alpha, 3)
+            cwb = 1000 if N <= 8 else 0
+            shards.append((sid, CM, True, 100 + cwb, inner, dl))
+            for ch in engine.chunks(frontier, 2):
+                shards.append((sid, CM, True, 100 + N + cwb, ch, dl))
+        engine.phase(ck, 'E1 reduced alphabet N=%d, search path and annotations on' % N, shard_e1, shards, schemas=8)
     ck.assumptions = ['a counter of live blocks per allocation site is used instead of LeakSanitizer (leaked blocks often stay reachable from scanner globals)',
                       'API part: breadth-first search over the C09 operation alphabet plus pointer-value operations, hygiene judged after every history']
     ck.finish('E1 viable-prefix DFS / E2 product over schemas with pointer values, functions, annotations, search path; included-file placements; '
